@@ -12,7 +12,7 @@ fn sequences(n: usize, len: usize) -> Vec<Vec<usize>> { let mut out = vec![vec![
 
 pub fn run(ctx: &Ctx) -> i32 {
     let th = ctx.tier.thorough();
-    let payloads = vec![Envelope::new("pl"), Envelope::new("pl").add_assertion("a", "b"), Envelope::new("pl").wrap_envelope(), Envelope::new_assertion("pp", "po"), Envelope::new("pl2").elide()];
+    let payloads = vec![Envelope::new("pl"), Envelope::new("pl").add_assertion("a", "b"), Envelope::new("pl").wrap_envelope(), Envelope::new_assertion("pp", "po"), Envelope::new("pl2").elide(), Envelope::new("pl").wrap_envelope().wrap_envelope()];
     let vendors = ["v1", "v2"]; let conf = [None, Some("c1"), Some("c2")];
     let mut atts: Vec<Att> = vec![]; for (i, _) in payloads.iter().enumerate() { for v in vendors { for c in conf { atts.push((i, v, c)) } } }
     let att_env: Vec<Envelope> = atts.iter().map(|(pi, v, c)| Envelope::new_attachment(payloads[*pi].clone(), v, *c)).collect();
